@@ -139,6 +139,7 @@ def _worker_c(chunk):
             if not m.schema_ok(case['rsrc']):
                 raise m.HarnessError('menu request violates schema: %r'
                                      % (case['rsrc'],))
+            m.modstate.reset()      # every case starts from a fresh process
             before = m.build_store(case['partitions'], case['existing'])
             after = before.clone()
             outcome, info = m.call(after, case['verb'], case['id'],
@@ -195,6 +196,7 @@ def _worker_a(chunk):
                 if not m.schema_ok(case['rsrc']):
                     raise m.HarnessError('menu request violates schema: %r'
                                          % (case['rsrc'],))
+                m.modstate.reset()  # every case starts from a fresh process
                 before = m.build_store(case['partitions'], case['existing'])
                 after = before.clone()
                 outcome, info = m.call(after, case['verb'], case['id'],
@@ -246,7 +248,15 @@ def _worker_b(chunk):
             if not m.schema_ok(c[2]):
                 raise m.HarnessError('menu request violates schema: %r'
                                      % (c[2],))
-            after = store.clone()
+            # the history is replayed from a fresh process state, so that
+            # whatever the code keeps at module level is what this history
+            # (and not a sibling branch of the search) left there
+            m.modstate.reset()
+            after = m.build_store(partitions, [])
+            for c0 in hist:
+                m.call(after, c0[0], c0[1], c0[2])
+            if after.key() != store.key():
+                raise m.HarnessError('replay of %r diverged' % (hist,))
             outcome, info = m.call(after, c[0], c[1], c[2])
             vs, facts = m.judge(store, after, c[0], c[1], c[2], outcome, info,
                                 check_store=True)
